@@ -207,7 +207,7 @@ def c04_case(args):
     dtext = decoy_text(base)
     prime(dtext, ("layout", "serde"))
     cov = Coverage()
-    eng = Engine(timeout_ms=30000 if tier == "quick" else 300000, max_paths=20000)
+    eng = Engine(timeout_ms=240000 if tier == "quick" else 600000, max_paths=20000)
 
     def fresh_fcp():
         fcp = parse(text)
